@@ -9,6 +9,7 @@ package main
 import (
 	"fmt"
 	"math/rand"
+	"os"
 	"net/url"
 	"sort"
 	"strings"
@@ -23,7 +24,17 @@ import (
 	"github.com/yorkie-team/yorkie/pkg/document/time"
 )
 
-func init() { register("crdt", runCrdt) }
+func init() {
+	register("crdt", runCrdt)
+	// oracle-only stream: one replica in three edits before SetActor (as a client does before
+	// Attach). The observable model cannot express "value identity != execution ticket", so no
+	// command lines are written; failures are classified as the known finding c01-pre-attach-edit.
+	register("crdtpre", func(c *Ctx) error {
+		preAttachShare = 3
+		c.Mute = true
+		return runCrdt(c)
+	})
+}
 
 func encTicket(t *time.Ticket) string {
 	if t == nil {
@@ -96,6 +107,10 @@ func encID(id change.ID) string {
 }
 
 type crdtReplica struct {
+	// preAttach: the replica edits before SetActor (as a client does before Attach); SetActor then
+	// rewrites only executedAt of the queued operations (known finding c01-pre-attach-edit)
+	preAttach bool
+	attached  bool
 	name    string
 	doc     *document.Document
 	cpS     int64 // how far into the log this replica has pulled
@@ -104,6 +119,8 @@ type crdtReplica struct {
 }
 
 type crdtWorld struct {
+	// some pushed operation references an identity issued before SetActor
+	preAttachRefs bool
 	c    *Ctx
 	reps []*crdtReplica
 	log  []*change.Change
@@ -284,11 +301,13 @@ func randomEdit(r *rand.Rand, root *json.Object, c *Ctx) string {
 	}
 }
 
-func (w *crdtWorld) newReplica(k int, actor time.ActorID) *crdtReplica {
+func (w *crdtWorld) newReplica(k int, actor time.ActorID, preAttach bool) *crdtReplica {
 	d := document.New("doc-crdt")
-	d.SetActor(actor)
+	if !preAttach {
+		d.SetActor(actor)
+	}
 	d.SetStatus(document.StatusAttached)
-	rep := &crdtReplica{name: fmt.Sprintf("r%d", k), doc: d, actor: actor}
+	rep := &crdtReplica{name: fmt.Sprintf("r%d", k), doc: d, actor: actor, preAttach: preAttach, attached: !preAttach}
 	w.reps = append(w.reps, rep)
 	return rep
 }
@@ -299,7 +318,7 @@ func (w *crdtWorld) observe(rep *crdtReplica) {
 	root := rep.doc.Marshal()
 	c.Obs("%s", root)
 	if clone := rep.doc.Root().Marshal(); clone != root {
-		c.Oracle("clone != root on %s: clone=%s root=%s", rep.name, clone, root)
+		c.Oracle("%sclone != root on %s: clone=%s root=%s", w.knownTag(), rep.name, clone, root)
 	}
 }
 
@@ -317,6 +336,9 @@ func (w *crdtWorld) emitChange(rep *crdtReplica, cn *change.Change, ok bool) {
 
 func (w *crdtWorld) localEdit(rep *crdtReplica) {
 	c := w.c
+	if !rep.attached {
+		w.preAttachRefs = true // a change is being made before SetActor
+	}
 	var what string
 	before := len(rep.doc.CreateChangePack().Changes)
 	err := rep.doc.Update(func(root *json.Object, p *presence.Presence) error {
@@ -331,7 +353,7 @@ func (w *crdtWorld) localEdit(rep *crdtReplica) {
 		return nil
 	})
 	if err != nil {
-		c.Oracle("update failed on %s: %v", rep.name, err)
+		c.Oracle("%supdate failed on %s: %v", w.knownTag(), rep.name, err)
 		return
 	}
 	chs := rep.doc.CreateChangePack().Changes
@@ -349,7 +371,7 @@ func (w *crdtWorld) localEdit(rep *crdtReplica) {
 func (w *crdtWorld) checkClock(cn *change.Change) {
 	id := cn.ID()
 	if v, ok := id.VersionVector().Get(id.ActorID()); !ok || v != id.Lamport() {
-		w.c.Oracle("change %d of %s: vv[actor]=%d ok=%v but lamport=%d", id.ClientSeq(), ActorNat(id.ActorID()), v, ok, id.Lamport())
+		w.c.Oracle(w.knownTag()+"change %d of %s: vv[actor]=%d ok=%v but lamport=%d", id.ClientSeq(), ActorNat(id.ActorID()), v, ok, id.Lamport())
 	}
 }
 
@@ -362,8 +384,53 @@ func roundTrip(chs []*change.Change) ([]*change.Change, error) {
 	return converter.FromChanges(pbs)
 }
 
+// refsInitialActor reports whether a pushed operation names an identity issued before SetActor
+// (actor = InitialActorID, not the root ticket): peers never created such an identity.
+func refsInitialActor(cn *change.Change) bool {
+	isPre := func(t *time.Ticket) bool {
+		return t != nil && t.ActorID() == time.InitialActorID && t.Lamport() > 0
+	}
+	for _, op := range cn.Operations() {
+		switch o := op.(type) {
+		case *operations.Set:
+			if isPre(o.ParentCreatedAt()) {
+				return true
+			}
+		case *operations.Add:
+			if isPre(o.ParentCreatedAt()) || isPre(o.PrevCreatedAt()) {
+				return true
+			}
+		case *operations.Move:
+			if isPre(o.ParentCreatedAt()) || isPre(o.PrevCreatedAt()) || isPre(o.CreatedAt()) {
+				return true
+			}
+		case *operations.Remove:
+			if isPre(o.ParentCreatedAt()) || isPre(o.CreatedAt()) {
+				return true
+			}
+		case *operations.ArraySet:
+			if isPre(o.ParentCreatedAt()) || isPre(o.CreatedAt()) {
+				return true
+			}
+		case *operations.Increase:
+			if isPre(o.ParentCreatedAt()) {
+				return true
+			}
+		}
+	}
+	return false
+}
+
 func (w *crdtWorld) sync(rep *crdtReplica) {
 	c := w.c
+	if !rep.attached {
+		// what client.Attach does first
+		rep.doc.SetActor(rep.actor)
+		rep.attached = true
+		c.Cmd("SETACTOR %s %s", rep.name, ActorNat(rep.actor))
+		c.Obs("ok")
+		c.Count("pre-attach:setactor")
+	}
 	pack := rep.doc.CreateChangePack()
 	// push
 	for _, cn := range pack.Changes {
@@ -372,6 +439,9 @@ func (w *crdtWorld) sync(rep *crdtReplica) {
 		}
 		w.log = append(w.log, cn)
 		rep.pushedC = cn.ClientSeq()
+		if refsInitialActor(cn) {
+			w.preAttachRefs = true
+		}
 	}
 	// pull
 	var pulled []*change.Change
@@ -390,7 +460,7 @@ func (w *crdtWorld) sync(rep *crdtReplica) {
 	resp := change.NewPack(rep.doc.Key(), change.NewCheckpoint(head, rep.pushedC), wire, nil, nil)
 	err = rep.doc.ApplyChangePack(resp)
 	if err != nil {
-		c.Oracle("ApplyChangePack failed on %s: %v", rep.name, err)
+		c.Oracle("%sApplyChangePack failed on %s: %v", w.knownTag(), rep.name, err)
 	}
 	for _, cn := range wire {
 		w.emitChange(rep, cn, err == nil)
@@ -406,6 +476,14 @@ func (w *crdtWorld) sync(rep *crdtReplica) {
 	w.observe(rep)
 }
 
+// knownTag classifies a failure: only when a pushed operation really names a pre-SetActor identity.
+func (w *crdtWorld) knownTag() string {
+	if w.preAttachRefs {
+		return "KNOWN[c01-pre-attach-edit] "
+	}
+	return ""
+}
+
 func (w *crdtWorld) finish() {
 	for round := 0; round < 2; round++ {
 		for _, rep := range w.reps {
@@ -415,27 +493,45 @@ func (w *crdtWorld) finish() {
 	first := w.reps[0].doc.Marshal()
 	for _, rep := range w.reps[1:] {
 		if m := rep.doc.Marshal(); m != first {
-			w.c.Oracle("replicas diverge after quiescence: %s=%s vs %s=%s", w.reps[0].name, first, rep.name, m)
+			w.c.Oracle("%sreplicas diverge after quiescence: %s=%s vs %s=%s", w.knownTag(), w.reps[0].name, first, rep.name, m)
 		}
 	}
 }
 
+// preAttachShare: one replica in N edits before SetActor (0 = never). Set by `-preattach N`.
+var preAttachShare = 0
+
 func runCrdt(c *Ctx) error {
+	for i, a := range os.Args {
+		if a == "-preattach" && i+1 < len(os.Args) {
+			fmt.Sscanf(os.Args[i+1], "%d", &preAttachShare)
+		}
+	}
 	c.stats.Rule = "random 2-4 replica histories over the object/array(move,set)/counter editing API with a simulated " +
 		"server log (server order, no echo) and wire round trip per delivery, GC off; every operation of every change is " +
 		"replayed by the Lean model per replica and Marshal() compared after each step; non-trivial = some replica applied " +
 		"a remote change while holding unpushed local changes (a concurrent pair); distinct by trace hash"
-	if c.Replay != nil && !c.ReplaySeed("crdt") {
+	if c.Replay != nil && !c.ReplaySeed("crdt") && !c.ReplaySeed("crdtpre") {
 		return fmt.Errorf("crdt: replay needs a `T crdt-<seed>-<i>` line (traces are regenerated from the seed)")
 	}
 	r := c.Rng
 	for i := 0; i < c.N; i++ {
-		c.Trace(fmt.Sprintf("crdt-%d-%d", c.Seed, i))
+		if c.Mute {
+			c.Trace(fmt.Sprintf("crdtpre-%d-%d", c.Seed, i))
+		} else {
+			c.Trace(fmt.Sprintf("crdt-%d-%d", c.Seed, i))
+		}
 		w := &crdtWorld{c: c}
 		n := 2 + r.Intn(3)
 		for k := 0; k < n; k++ {
-			rep := w.newReplica(k, mkActor(r, k))
-			c.Cmd("R %s %s", rep.name, ActorNat(rep.actor))
+			pre := preAttachShare > 0 && r.Intn(preAttachShare) == 0
+			rep := w.newReplica(k, mkActor(r, k), pre)
+			if pre {
+				c.Cmd("R %s 0", rep.name)
+				c.Count("pre-attach:replica")
+			} else {
+				c.Cmd("R %s %s", rep.name, ActorNat(rep.actor))
+			}
 			c.Obs("ok")
 		}
 		steps := 8 + r.Intn(34)
